@@ -190,6 +190,9 @@ func runJob(j *vJob) vOut {
 	} else if j.oracle != nil {
 		out.fail = j.oracle(w, vr)
 	}
+	if d := os.Getenv("TDX_DEBUG_FAULT"); d != "" && strings.Contains(j.spec.Fault, d) {
+		fmt.Fprintf(os.Stderr, "DEBUG %s gc=%v cr=%v -> %s err=%v oracle=%q\n", j.spec.Fault, j.spec.GC, j.spec.CR, vr.obs, vr.err, out.fail)
+	}
 	shape := ""
 	if out.fail != "" {
 		shape = failShape(out.fail)
